@@ -4,7 +4,7 @@ import json, os
 HERE = os.path.dirname(os.path.dirname(os.path.abspath(__file__)))
 
 HOOK_COMMITS = ["2cbbdff", "ac23892"]
-FIX_COMMITS = ["98bc2de", "ed106f3", "491bd24", "dfb98ff", "3df74c4", "b3f789f", "ab23d59", "444235d", "331aeac", "5e37f18", "e1dd2ec", "eba1a61", "907b67f", "fe271db", "5c59d40", "7ce9410", "d76c398", "44bbfd8", "1167486", "47e344c", "b3bcf3e", "c4fef33", "4349523", "033fd31", "c75fb35", "db1f79e", "a26ec84", "b4fbf67", "3ba377a"]
+FIX_COMMITS = ["98bc2de", "ed106f3", "491bd24", "dfb98ff", "3df74c4", "b3f789f", "ab23d59", "444235d", "331aeac", "5e37f18", "e1dd2ec", "eba1a61", "907b67f", "fe271db", "5c59d40", "7ce9410", "d76c398", "44bbfd8", "1167486", "47e344c", "b3bcf3e", "c4fef33", "4349523", "033fd31", "c75fb35", "db1f79e", "a26ec84", "b4fbf67", "3ba377a", "31909a4"]
 
 CHECKS = {
  # id: (engine, technique, level text, level note, design ref, has_thorough)
